@@ -7,7 +7,9 @@ import shutil
 import tempfile
 import types
 
-from . import loader
+from . import loader, ch_codec
+
+ch_codec.selftest()  # once per process, concretely, before any symbolic run
 
 _L = None
 
@@ -29,8 +31,8 @@ class FS:
 
 
 class Writer:
-    def __init__(self, fs, path, mode, encoding, newline):
-        self.fs, self.path, self.mode, self.encoding, self.newline = fs, path, mode, encoding, newline
+    def __init__(self, fs, path, mode, encoding, newline, errors=None):
+        self.fs, self.path, self.mode, self.encoding, self.newline, self.errors = fs, path, mode, encoding, newline, errors
         self.buf = []
         if path in fs.files:
             raise FileExistsError(path)
@@ -47,7 +49,11 @@ class Writer:
                 s = s.replace('\n', os.linesep)
             elif self.newline not in ('', '\n'):
                 s = s.replace('\n', self.newline)
-            self.buf.append(s.encode(self.encoding or 'utf-8'))  # UnicodeEncodeError for lone surrogates
+            if self.errors not in (None, 'strict') and (self.encoding or 'utf-8').lower().replace('_', '-') in ('utf-8', 'utf8'):
+                # CrossHair models the strict codec itself; other error handlers would realise the string
+                self.buf.append(ch_codec.utf8_encode(s, self.errors or 'strict'))  # UnicodeEncodeError for lone surrogates
+            else:
+                self.buf.append(s.encode(self.encoding, self.errors or 'strict'))
         return len(chunk)
 
     def __enter__(self):
@@ -59,17 +65,20 @@ class Writer:
 
 
 class Reader:
-    def __init__(self, fs, path, mode, encoding, newline):
+    def __init__(self, fs, path, mode, encoding, newline, errors=None):
         if fs.files.get(path) is None:
             raise FileNotFoundError(path)
-        self.data, self.mode, self.encoding, self.newline = fs.files[path], mode, encoding, newline
+        self.data, self.mode, self.encoding, self.newline, self.errors = fs.files[path], mode, encoding, newline, errors
         self.pos = 0
 
     def read(self, n=-1):
         if 'b' in self.mode:
             d = self.data
         else:
-            d = self.data.decode(self.encoding or 'utf-8')
+            if self.errors not in (None, 'strict') and (self.encoding or 'utf-8').lower().replace('_', '-') in ('utf-8', 'utf8'):
+                d = ch_codec.utf8_decode(self.data, self.errors or 'strict')
+            else:
+                d = self.data.decode(self.encoding, self.errors or 'strict')
             if self.newline is None:
                 d = d.replace('\r\n', '\n').replace('\r', '\n')
         if n is None or n < 0:
@@ -152,12 +161,12 @@ def setup_model(split=0, mod=None, fs=None):
     fs = fs or FS()
     Chunks.split = split
 
-    def m_open(path, mode='r', encoding=None, newline=None, **kw):
+    def m_open(path, mode='r', buffering=-1, encoding=None, errors=None, newline=None, **kw):
         if 'x' in mode or 'w' in mode:
             if os.path.dirname(path) not in fs.dirs:
                 raise FileNotFoundError(path)
-            return Writer(fs, path, mode, encoding, newline)
-        return Reader(fs, path, mode, encoding, newline)
+            return Writer(fs, path, mode, encoding, newline, errors)
+        return Reader(fs, path, mode, encoding, newline, errors)
 
     def makedirs(d, *a, **k):
         if d in fs.dirs:
